@@ -59,6 +59,7 @@ class Run:
         self.known = load_known(pid)
         self.evidence_dir = os.environ.get('VERIF_EVIDENCE_DIR', os.path.join(VERIF, 'evidence'))
         self.quiet_evidence = False
+        self.fallbacks = []       # [(name, callable() -> cex dict)]: bounded replay on the REAL code, used only when a unit is undecided
 
     # ------------------------------------------------------------------
     def note_functions(self, snippets):
@@ -128,6 +129,21 @@ class Run:
                 violations.append(f)
         code = 0
         lines = []
+        if self.undecided and not violations and self.fallbacks:
+            # The deductive unit could not be assembled/decided (e.g. the code under contract was restructured). Before
+            # answering "undecided", run the bounded replay search on the real code: a concrete failing input found there
+            # is a true violation whatever the state of the proof; finding none decides nothing.
+            for (name, fb) in self.fallbacks:
+                try:
+                    cex = fb()
+                except Exception as e:
+                    cex = {"found": False, "note": "fallback replay failed: %r" % (e,)}
+                self.extra.setdefault("fallback_replay", []).append({"name": name, "found": bool(cex and cex.get("found")), "note": (cex or {}).get("note") or (cex or {}).get("verdict")})
+                if cex and cex.get("found"):
+                    violations.append({"key": "%s|replay-on-real-code|%s" % (name, str(cex.get("verdict", ""))[:80]), "backend": "replay (bounded search on the real code; the deductive unit was undecided: %s)" % '; '.join(self.undecided)[:300],
+                                       "detail": {"msg": "deductive unit undecided: " + '; '.join(self.undecided)[:1500]}, "cex": cex})
+                    self.n_obl += 1
+                    break
         if self.undecided:
             code = 2
             for u in self.undecided:
